@@ -149,7 +149,11 @@ func TestC08(t *testing.T) {
 		step := func(h *history, files map[int]*fit.File, op ops.Op) (string, bool) {
 			h.Ops = append(h.Ops, op)
 			procHist = append(procHist, op)
-			got := ops.Hash(ops.Run(pool, op, files))
+			raw := ops.Run(pool, op, files)
+			if i := strings.Index(raw, "OUTSIDE-THE-FILE: "); i >= 0 {
+				return fmt.Sprintf("%v wrote into memory of the caller that is not part of the File: %s", op, raw[i+18:]), false
+			}
+			got := ops.Hash(raw)
 			if want := baseline[op.String()]; got != want {
 				if len(procHist) > len(h.Ops) {
 					// replay needs the calls of earlier cases too (bounded)
